@@ -1,5 +1,7 @@
 ------------------------------ MODULE MCLayout ------------------------------
-(* Bounded instances of the placement machine of Layout.tla (scaled constants). *)
+(* Bounded instances of the placement machine of Layout.tla (scaled constants).
+   TLC evaluates every zero-arity constant definition at start-up, so the larger part-list sets
+   live in their own modules (MCLayoutQuick / Mid / Wide). *)
 EXTENDS Layout
 
 Slots == <<"R", "X", "TD", "TB", "RR", "D", "B">>
@@ -22,9 +24,6 @@ Lists(maxParts, A, S, L) ==
                       : f \in fill(X)} : X \in subsets}
 
 Far == 40 * 16
-ListsQuick == Lists(3, {1, 4, 32}, {0, 1, 3}, {Far, Far + 3})
-ListsMid == Lists(4, {1, 4, 32}, {0, 1, 3}, {Far + 3})
-ListsWide == Lists(3, {1, 2, 4, 16, 32}, {0, 1, 3, 5}, {Far, Far + 3})
 ListsTiny == Lists(2, {1, 32}, {0, 3}, {Far + 3})
 BothRelro == {TRUE, FALSE}
 =============================================================================
